@@ -25,6 +25,12 @@ type VerifEviction struct {
 // order), records their frequencies, lowers the maximum to newMax and runs evictNodes. It returns the evictions in
 // order, the estimates of all keys at eviction time, and ok=false if this build has no such hook.
 func VerifEvictLayout(maximum, newMax uint64, nodes []VerifEvictNode) (evicted []VerifEviction, freq map[int]uint64, survivors map[int]string, ok bool) {
+	return VerifEvictLayoutRetire(maximum, newMax, nodes, -1, 0)
+}
+
+// VerifEvictLayoutRetire does the same, and retires the node of retireKey (as a concurrent Invalidate of that key would:
+// the node stays linked until its delete event is applied) right after the afterN-th eviction of the pass.
+func VerifEvictLayoutRetire(maximum, newMax uint64, nodes []VerifEvictNode, retireKey, afterN int) (evicted []VerifEviction, freq map[int]uint64, survivors map[int]string, ok bool) {
 	p := newPolicy[int, int](true)
 	p.rand = func() uint32 { return 1 } // never the random admission
 	p.setMaximumSize(maximum)
@@ -63,6 +69,9 @@ func VerifEvictLayout(maximum, newMax uint64, nodes []VerifEvictNode) (evicted [
 	p.evictNodes(func(n node.Node[int, int], _ int64) {
 		evicted = append(evicted, VerifEviction{Key: n.Key(), Freq: p.sketch.frequency(n.Key())})
 		p.delete(n)
+		if r, found := all[retireKey]; found && len(evicted) == afterN && r.IsAlive() {
+			r.Retire()
+		}
 	})
 	survivors = map[int]string{}
 	for n := range p.window.All() {
